@@ -12,7 +12,11 @@ Reading of the property text used here:
   (mirror) pod.  Such a pod may remain only if it is "stuck terminating" (terminating for more than one minute past
   its deletion timestamp) — or if it has completed (phase Succeeded / Failed: nothing is running any more).
 * "blocking volume attachment" = a VolumeAttachment of the node for a persistent volume that is not mounted (through
-  an existing PVC) by a pod Karpenter cannot drain.
+  an existing PVC) by a pod Karpenter cannot drain.  "Gone" = the VolumeAttachment object no longer exists: an
+  attachment that the attach-detach controller has deleted but that the CSI external-attacher's finalizer still holds
+  (deletionTimestamp set, detach in progress or failing) is NOT gone, and neither is one whose `status.attached` is
+  false.  The snapshot therefore lists every VolumeAttachment object of the node that exists in the store, whatever
+  its metadata or status say.
 * "termination grace period has expired" = the instant is after the deadline recorded on the NodeClaim.
 * "the provider confirms the instance no longer exists" = the instance is absent from the provider's instance set.
 -/
